@@ -1,0 +1,33 @@
+//go:build verif
+
+package lossy
+
+import "github.com/deepteams/webp/internal/bitio"
+
+// Verification hook for the inlined boolean reader of decode_mb.go (property
+// C06, model Webp.Impl.BoolCoderFast). Compiled only with the build tag
+// "verif"; it adds no behaviour of its own.
+
+// VerifFastRun runs fastBit (op = probability 0..255) / fastSigned (op = -1,
+// with v = 1) under the brLoad / brSync protocol of getCoeffsInline on a real
+// BoolReader over data and returns the results and the registers brSync
+// wrote back.
+func VerifFastRun(data []byte, ops []int) (res []int, value uint64, rng uint32, bits int, pos int, eof bool) {
+	br := bitio.NewBoolReader(data)
+	brV, brR, brB := br.Value, br.Range, br.Bits
+	for _, op := range ops {
+		if brB < 0 {
+			brV, brB = brLoad(br, brV, brB)
+		}
+		var x int
+		if op < 0 {
+			x, brV, brR, brB = fastSigned(1, brV, brR, brB)
+		} else {
+			x, brV, brR, brB = fastBit(uint8(op), brV, brR, brB)
+		}
+		res = append(res, x)
+	}
+	brSync(br, brV, brR, brB)
+	pos, eof = br.VerifPos()
+	return res, br.Value, br.Range, br.Bits, pos, eof
+}
